@@ -15,13 +15,14 @@ TInit == InitRegs /\ l = 2 /\ Log[1].k = "reset" /\ Init
 Line ==
   /\ l <= NLines /\ l' = l + 1
   /\ CASE e.k = "reset" ->
-            live' = {} /\ ref' = <<>> /\ app' = {} /\ sending' = {} /\ released' = {}
+            live' = {} /\ ref' = <<>> /\ app' = {} /\ extra' = <<>> /\ sending' = {} /\ released' = {} /\ pend' = {} /\ shared' = {}
        [] e.k = "end" -> e.status = "ok" /\ UNCHANGED vars
        [] e.k = "m" ->
             (CASE e.op = "new" ->
                    \* starts empty, with room for what was asked
                    /\ New(e.s) /\ e.cap >= e.len /\ e.hl = 0
-              [] e.op = "clone" -> Clone(e.s) /\ e.ref = ref[e.s]
+              \* (a Clone announced by the application is the application's; the count is checked either way)
+              [] e.op = "clone" -> (IF e.s \in app /\ e.s \notin sending THEN AppClone(e.s) ELSE Clone(e.s)) /\ e.ref = ref[e.s]
               [] e.op = "free" -> Free(e.s) /\ e.ref = ref[e.s]
               [] OTHER -> FALSE)
        [] e.k = "a" ->
@@ -35,5 +36,5 @@ Line ==
        [] e.k = "pool" -> NewIsEmpty(e.sz, e.len, e.cap, e.hl) /\ UNCHANGED vars
        [] OTHER -> FALSE
 TSpec == TInit /\ [][Line]_<<vars, l>>
-TConstraint == RefPositive /\ ReleasedDead /\ AppOwnsAlone /\ Progress(l)
+TConstraint == RefPositive /\ ReleasedDead /\ AppOwnsAlone /\ ExtraOnApp /\ Progress(l)
 =============================================================================
